@@ -555,11 +555,11 @@ def configs(tier):
         # root is then 0 up to rounding of either sign - the abs guard is what keeps the value finite; the finiteness predicate sees
         # every entry of the list (and the shorter prefix run)
         ("constrained_nn_exact", "tensorly.decomposition.constrained_parafac", run_constrained, dict(non_negative=True, _rank=1), ["nn_lowrank"], o234, [4, 10]),
-        ("parafac_exact", "tensorly.decomposition.parafac", run_parafac, dict(init="random", _rank=1), ["lowrank"], o234, [4, 10]),
+        ("parafac_exact", "tensorly.decomposition.parafac", run_parafac, dict(init="random", _rank=1), ["lowrank"], [3, 4], [4, 10]),
         ("parafac_exact_norm", "tensorly.decomposition.parafac", run_parafac, dict(init="svd", _rank=1, normalize_factors=True), ["lowrank", "nn_lowrank"], [3], [6]),
         ("nn_parafac_exact", "tensorly.decomposition.non_negative_parafac", run_nn_parafac, dict(init="svd", _rank=1), ["nn_lowrank"], [3], [30]),
-        ("hals_exact", "tensorly.decomposition.non_negative_parafac_hals", run_hals, dict(init="random", _rank=1), ["nn_lowrank"], o234, [4, 10]),
-        ("tucker_exact", "tensorly.decomposition.tucker", run_tucker, dict(init="svd"), ["lowrank"], o234, [1, 3]),
+        ("hals_exact", "tensorly.decomposition.non_negative_parafac_hals", run_hals, dict(init="random", _rank=1), ["nn_lowrank"], [3], [4, 10]),
+        ("tucker_exact", "tensorly.decomposition.tucker", run_tucker, dict(init="svd"), ["lowrank"], [3], [2]),
         ("parafac2_exact", "tensorly.decomposition.parafac2", run_parafac2, dict(_rank=1, linesearch=False), ["lowrank"], [3], [4, 10]),
         ("cmtf", "tensorly.decomposition._cmtf_als.coupled_matrix_tensor_3d_factorization", run_cmtf, dict(init="svd"), G, [3], K),
         ("cmtf_tol", "tensorly.decomposition._cmtf_als.coupled_matrix_tensor_3d_factorization", run_cmtf, dict(init="svd", _tol=1e-3), G, [3], KT),
@@ -1296,9 +1296,10 @@ def iter_cases(col, tier, rng):
 
     pf_opts = [dict(normalize_factors=True), dict(normalize_factors=True, l2_reg=0.1), dict(sparsity=3), dict(normalize_factors=True, fixed_modes=[0]),
                dict(normalize_factors=True, sparsity=2)]
-    for o in pf_opts:
+    for j_o, o in enumerate(pf_opts):
         for order in ([rng.choice([3, 4])] if quick else [2, 3, 4]):
-            shape = pick(order)
+            # equal first / last dimensions for every other option: an MTTKRP of the wrong mode then gives a wrong NUMBER, not a shape error
+            shape = pick(order) if j_o % 2 else rng.choice(SHAPES_EQ[order] + ([] if quick else SHAPES_EQ_T[order]))
             seed = rng.randrange(1, 2 ** 31 - 1)
             rs = np.random.RandomState(seed)
             X = make_tensor(rng.choice(["generic", "integer", "lowrank"]), shape, 3, rs)
@@ -1366,6 +1367,120 @@ def iter_cases(col, tier, rng):
                          entry="tensorly.decomposition.parafac"))
             chk.count(key=("iter", "parafac_ls", X.shape, tuple(sorted(o)), dec[0]), nontrivial=True)
             chk.hist("iteration_on_data", f"parafac line search: {'accepted' if dec[0] else 'rejected'}")
+
+
+class DataLog:
+    """records, in order, the arguments of the MTTKRP calls and the inputs / outputs of the cp_normalize calls of one run by temporarily
+    rebinding the two names in the module of the decomposition (harness side; /repo untouched)"""
+    def __init__(self, module):
+        self.module, self.events, self.saved = module, [], {}
+
+    def __enter__(self):
+        m, ev = self.module, self.events
+        cp = lambda w, fs: (None if w is None else np.array(w, dtype=float), [np.array(f, dtype=float) for f in fs])
+        f_m, f_n = getattr(m, "unfolding_dot_khatri_rao"), getattr(m, "cp_normalize")
+        self.saved = {"unfolding_dot_khatri_rao": f_m, "cp_normalize": f_n}
+
+        def mttkrp(tensor, cp_tensor, mode):
+            ev.append(("m", mode, cp(cp_tensor[0], cp_tensor[1])))
+            return f_m(tensor, cp_tensor, mode)
+
+        def normalize(cp_tensor, *a, **k):
+            out = f_n(cp_tensor, *a, **k)
+            ev.append(("n", cp(cp_tensor[0], cp_tensor[1]), cp(out[0], out[1])))
+            return out
+        setattr(m, "unfolding_dot_khatri_rao", mttkrp); setattr(m, "cp_normalize", normalize)
+        return self
+
+    def __exit__(self, *exc):
+        for name, f in self.saved.items():
+            setattr(self.module, name, f)
+        return False
+
+
+def norm_sweep_cases(col, tier, rng):
+    """one sweep of non_negative_parafac_hals / non_negative_parafac with normalize_factors=True on data (KNormSweep = Model/Errors.v:norm_sweep_error):
+    the state at the first MTTKRP call, the updated factors and the outputs of the in-sweep cp_normalize calls are logged from a real
+    one-iteration run; the model computes every MTTKRP itself and pairs the last one with the last updated mode"""
+    from tensorly.decomposition import non_negative_parafac, non_negative_parafac_hals
+    from tensorly.decomposition import _nn_cp as nn_mod
+    chk = col.chk
+    quick = tier == "quick"
+    shapes = SHAPES_Q if quick else SHAPES_T
+    plan = [("hals", dict()), ("hals", dict(fixed_modes="last")), ("mu", dict()), ("hals", dict(sparsity_coefficients=[0.2, 0.1, 0.3, 0.1]))]
+    for algo, o0 in plan:
+        for order in ([rng.choice([3, 4])] if quick else [2, 3, 4]):
+            shape = shapes[order][rng.randrange(len(shapes[order]))] if "fixed_modes" not in o0 else SHAPES_EQ[order][0]
+            seed = rng.randrange(1, 2 ** 31 - 1)
+            rs = np.random.RandomState(seed)
+            X = make_tensor("nonneg" if rng.random() < 0.6 else "nn_integer", shape, 2, rs)
+            n, R = X.ndim, 2
+            o = dict(o0)
+            if o.get("fixed_modes") == "last":
+                o["fixed_modes"] = [n - 1]
+            if isinstance(o.get("sparsity_coefficients"), list):
+                o["sparsity_coefficients"] = o["sparsity_coefficients"][:n]
+            init = rand_cp_init(X.shape, R, np.random.RandomState(seed), nonneg=True, weights=True)
+
+            def call():
+                with DataLog(nn_mod) as log:
+                    if algo == "hals":
+                        out, errs = non_negative_parafac_hals(np.array(X), R, n_iter_max=1, tol=1e-300, return_errors=True, random_state=seed, init=init,
+                                                              normalize_factors=True, **o)
+                    else:
+                        out, errs = non_negative_parafac(np.array(X), R, n_iter_max=1, tol=1e-300, return_errors=True, random_state=seed, init=init,
+                                                         normalize_factors=True, **o)
+                return out, [float(e) for e in errs], list(log.events)
+            try:
+                st, res = C.call_impl(call, timeout=60)
+            except AttributeError:
+                raise
+            if st != "ok" or len(res[1]) != 1:
+                chk.hist("skipped", f"norm_sweep_cases: {str(res)[:50]}")
+                continue
+            out, errs, ev = res
+            first = next((j for j, e in enumerate(ev) if e[0] == "m"), None)
+            if first is None:
+                continue
+            ev = ev[first:]
+            mpos = [j for j, e in enumerate(ev) if e[0] == "m"]
+            ms = [ev[j][1] for j in mpos]
+            if len(set(ms)) != len(ms):
+                chk.hist("skipped", "norm_sweep_cases: a mode is visited twice")
+                continue
+            w0, f0 = ev[0][2]
+            solve_tape, norm_tape = [], []
+            okc = True
+            for q, j in enumerate(mpos):
+                nxt = ev[j + 1] if j + 1 < len(ev) else None
+                if nxt is None:
+                    after = (None, [np.array(f, dtype=float) for f in out[1]])       # no normalisation at the end: the returned factors
+                elif nxt[0] == "n":
+                    after = nxt[1]
+                else:
+                    after = nxt[2]
+                solve_tape.append(after[1][ms[q]])
+                if q < len(mpos) - 1:
+                    if nxt is not None and nxt[0] == "n":
+                        norm_tape.append(nxt[2])
+                    else:
+                        okc = False      # no normalisation between two updates although normalize_factors=True: not the loop the model describes
+                else:
+                    norm_tape.append(after)    # never used by the model (no normalisation after the last updated mode)
+            if not okc:
+                chk.hist("skipped", "norm_sweep_cases: unexpected event order")
+                continue
+            rep_ = errs[0]
+            entry = "tensorly.decomposition.non_negative_parafac_hals" if algo == "hals" else "tensorly.decomposition.non_negative_parafac"
+            inputs = {"entry_point": entry, "tensor": X, "rank": R, "n_iter_max": 1, "seed": seed, "options": dict(o, normalize_factors=True), "weighted_init": True}
+            col.add(lambda P, X=X, w0=w0, f0=f0, ms=ms, solve_tape=solve_tape, norm_tape=norm_tape, rep_=rep_: (
+                f"(KNormSweep {P.t(X)} {C.nat(R)} {P.opt_w(w0)} {P.ts(f0)} {C.nat_list(ms)} {P.ts(solve_tape)} "
+                f"[{'; '.join('(' + P.opt_w(a) + ', ' + P.ts(b) + ')' for a, b in norm_tape)}] {P.num(rep_)})"),
+                dict(inputs=inputs, what=("non_negative_parafac_hals" if algo == "hals" else "non_negative_parafac") +
+                     ": one sweep with cp_normalize inside it on data (logged updates / normalisations as tapes, the model's own MTTKRPs + shortcut) vs the reported value",
+                     entry=entry))
+            chk.count(key=("norm_sweep", algo, X.shape, tuple(ms)), nontrivial=True)
+            chk.hist("iteration_on_data", f"{algo} with in-sweep normalisation")
 
 # ----------------------------------------------------------------------------- main
 def gen_runs(tier, rng):
@@ -1480,7 +1595,7 @@ def _install_local_known():
 KIND_COST = {"KCP": (0.12, 0.32), "KTucker": (0.31, 0.93), "KParafac2": (0.5, 1.9), "KHooiHyp": (0.31, 0.9), "KTR": (0.32, 1.45), "KErrCalcFull": (0.12, 0.35),
              "KNormalize": (0.16, 0.16), "KHooi": (0.13, 0.33), "KCmtf": (0.31, 1.1), "KTrace": (0.013, 0.04), "KTuckerNormalize": (0.26, 0.26), "KEvents": (0.025, 0.09),
              "KSparsify": (0.08, 0.14), "KCPfast": (0.24, 0.7), "KSLoop": (0.015, 0.2), "KErrCalc": (0.18, 0.5), "KP2Len": (0.026, 0.24), "KP2Events": (0.09, 0.78),
-             "KDense": (0.1, 0.3), "KSweepV": (0.3, 0.9), "KIter": (0.35, 1.0)}
+             "KDense": (0.1, 0.3), "KSweepV": (0.3, 0.9), "KIter": (0.35, 1.0), "KRLoop": (0.015, 0.2), "KNormSweep": (0.3, 0.9)}
 
 
 def balanced(cases, nsh):
@@ -1550,7 +1665,8 @@ def run(chk):
         for k in ks:
             # thorough: every prefix length runs and is judged by the Python predicates; Coq cases for the first, the third and the longest one
             light_k = light or (chk.tier != "quick" and X_pinned is None and len(ks) > 3 and k not in (ks[0], ks[2], ks[-1])) \
-                or (chk.tier == "quick" and X_pinned is None and len(ks) >= 3 and k not in (ks[0], ks[-1]))
+                or (chk.tier == "quick" and X_pinned is None and len(ks) >= 3 and k not in (ks[0], ks[-1])) \
+                or (chk.tier == "quick" and X_pinned is None and "_exact" in name and k != ks[-1])
             st, rec = one_run(runner, X, rank, k, seed, o)
             nruns += 1
             chk.hist("algorithm", name); chk.hist("order", len(shape)); chk.hist("data", kind); chk.hist("outcome", st)
@@ -1587,6 +1703,16 @@ def run(chk):
                 col.add(lambda P, lit_s=lit_s: lit_s, dict(inputs=describe(name, entry, X, kind, rank, k, seed, o), what="one-value-per-iteration loop skeleton: number of recorded values",
                                                           entry=entry))
                 chk.count(key=(name, "sloop_len", k), nontrivial=True)
+            if name.startswith("randomised") and "_tol" not in o and rec.errors is not None and not continue_light:
+                # randomised_parafac's gating (Model/Errors.v:r_loop): recorded values and in-loop callback invocations for the option combination
+                track = bool(o.get("max_stagnation", 1000))
+                has_cb = bool(o.get("_cb"))
+                stop_at = o.get("_stop_at") if has_cb else None
+                lit_r = (f"(KRLoop {C.nat(k)} {optnat(stop_at)} {C.boolc(track or has_cb)} {C.boolc(track)} {C.boolc(has_cb)} {C.nat(len(rec.errors))} "
+                         f"{C.nat(max(0, len(rec.cb) - 1))})")
+                col.add(lambda P, lit_r=lit_r: lit_r, dict(inputs=describe(name, entry, X, kind, rank, k, seed, o), what="randomised_parafac gating: number of recorded values / in-loop callbacks",
+                                                          entry=entry))
+                chk.count(key=(name, "rloop", k), nontrivial=True)
             if "_tol" in o:
                 chk.hist("stopped_by_convergence", f"{name}: {len(series(rec)) < k}")
             if name in LS_CONFIGS and (k - 1) > 5 and (k - 1) % 2 == 0 and rec.ls:
@@ -1614,6 +1740,11 @@ def run(chk):
     normalize_cases(col, chk.tier, rng)
     trace_cases(col, chk.tier, rng)
     iter_cases(col, chk.tier, rng)
+    try:
+        norm_sweep_cases(col, chk.tier, rng)
+    except AttributeError as ex:     # a renamed helper cannot be interposed any more: skipped and counted, never a verdict
+        skipped += 1
+        chk.hist("skipped", f"norm sweep on data: {ex}"[:80])
     try:
         p2_event_cases(col, chk.tier, rng)
     except AttributeError as ex:     # a renamed helper cannot be interposed any more: skipped and counted, never a verdict
@@ -1644,7 +1775,7 @@ def run(chk):
                        "+ HOOI hypotheses (orthonormal factors, core = X x U^T) on every unmasked tucker / partial_tucker run; + recorded-value counts of the one-value-per-iteration loops; "
                        "+ parafac2 event-level traces; + class API (fit_transform: errors_ vs decomposition_); + tensor_ring_als_sampled with the exact error; "
                        "+ one parafac iteration on data for consecutive prefix runs (KSweep); + masked CP runs against error_calc_model on the original data; "
-                       "+ static ast tie (harness/props/C06_ast.py: 12 generated goals re-proved by coqc).  Quick: Coq cases for the first and last prefix length, Qops cross-check for the first and "
+                       "+ static ast tie (harness/props/C06_ast.py: 16 generated goals re-proved by coqc, tr_idx and tr_pieces optional) + round 7: one iteration on data of constrained_parafac / HALS (KSweepV) and of parafac with weights / normalisation / sparsity / the first line-search iteration (KIter), one sweep with in-sweep normalisation (KNormSweep), randomised gating counts (KRLoop), exact-fit configurations.  Quick: Coq cases for the first and last prefix length, Qops cross-check for the first and "
                        "every 24th case of a kind, 16 cost-balanced shards.  Thorough: every shape, data kind rotating, all prefix lengths judged by the "
                        "Python predicates, Coq cases for the first, third and longest prefix of each run family")
     for b in broken:
@@ -1669,6 +1800,8 @@ def run(chk):
     chk.trusted = [                   "sparse components are the implementation's (returned, or sparsify_tensor on the imputed residual in the direct error_calc cases)",
                    "line-search decisions are read from the verbose output of parafac / parafac2 (used for coverage histograms and to steer the extra line-search seeds only)",
                    "event logs are taken by temporarily rebinding unfolding_dot_khatri_rao / cp_normalize / error_calc / cp_norm in tensorly.decomposition._cp and _nn_cp (harness side; skipped and counted if a name is missing)",
+                   "the tapes of KNormSweep (updated factors, outputs of the in-sweep cp_normalize calls) are logged by rebinding unfolding_dot_khatri_rao / cp_normalize in tensorly.decomposition._nn_cp; "
+                   "the tapes of KSweepV / KIter come from consecutive prefix runs, callbacks, the run without line search and the verbose output (jump, decision)",
                    "Q / dyadic execution of the model stands for the ring-regime model on rational inputs; KCPfast and KParafac2 re-check shortcut == residual exactly on each instance",
                    "column norms handed to the executed cp_normalize / tucker_normalize models are computed by the harness (numpy) and validated by squaring inside Coq (1e-9 relative)",
                    "parafac2 event logs are taken by rebinding _compute_projections / parafac / non_negative_parafac_hals / _parafac2_reconstruction_error / cp_normalize in tensorly.decomposition._parafac2",
